@@ -22,6 +22,7 @@ where
 
     loop {
         let did_change = apply_rewrites(egraph, &rws);
+        let after_rules = egraph.progress();
 
         match hook(egraph) {
             Ok(_) => (),
@@ -31,7 +32,8 @@ where
             }
         }
 
-        if !did_change {
+        // the hook has mutable access to the e-graph: what it changed is not saturated yet.
+        if !did_change && egraph.progress() == after_rules {
             stop_reason = StopReason::Saturated;
             break;
         }
